@@ -109,10 +109,17 @@ def run_case(case, tier):
             if iv["churn"]:
                 N = f"x{extra}"
                 extra += 1
-                for s in (["open", N], ["hello", N, {"mod_id": 60 + extra, "pid": 777 + extra}]):
+                # explicit ids and dynamic ids (slots 100..199 of the process-id table)
+                for s in (["open", N], ["hello", N, {"mod_id": rng.choice([60 + extra, 0, 0, 99 - extra]), "pid": 777 + extra}]):
                     sc.issue(s)
                 if rng.random() < 0.5 and len(pubs) > 1:
                     sc.issue(["ready", pubs[-1], 31337 + extra])
+                if rng.random() < 0.5:
+                    # a connection request that must be refused (id held by a live unique module): the incumbent's
+                    # process id stays in the table
+                    R = f"r{extra}"
+                    for s in (["open", R], ["hello", R, {"mod_id": rng.choice([11, 20]), "pid": 999, "v2": rng.random() < 0.7}]):
+                        sc.issue(s)
             published.append(Counter(t for t, dm, dh in todo if (dm, dh) == (0, 0)))
             last = todo[-len(pubs):] if todo else []
             body = todo[:len(todo) - len(last)]
